@@ -73,7 +73,7 @@ ASSUMPTIONS = [
     "class may have an empty description or one of a class sharing its high nibble (0x01xx..0x0Fxx: must not be "
     "described as error reset, they are not reset frames)",
 ]
-BUDGET = {"quick": 40, "thorough": 330}
+BUDGET = {"quick": 150, "thorough": 330}
 
 KNOWN_WAIT_DEFECT = ("wait: the first matching frame is followed by another frame logged before the waiter "
                      "wakes up (genuine defect: wait() inspects only log[-1])")
@@ -381,10 +381,16 @@ def _run_ops(rig, ops, D):
                 feat["noise"] = True
                 rig.hub.inject(Frame(op["can_id"], bytes(op["data"]), ts=op["ts"]))
                 fcode = None
+            elif kind == "readd":
+                # the node object is handed to its network once more: nothing changes for the consumer
+                feat["noise"] = True
+                if rig.kind != "direct":
+                    rig.net_c.add_node(rig.remotes[k])
+                fcode = None
             else:
                 raise ValueError(kind)
         except Exception as e:
-            if kind not in ("frame", "send", "preset", "clear", "noise"):
+            if kind not in ("frame", "send", "preset", "clear", "noise", "readd"):
                 raise
             D.append(Discrepancy(f"C16/raises/{kind}", f"{tag}: {type(e).__name__}: {e}"))
             return feat
@@ -834,6 +840,8 @@ def history(draw, maxlen):
             ops.append({"op": "cb", "node": node})
         elif k == 14:
             ops.append({"op": "clear", "node": node})
+        elif k == 15 and form == 4:
+            ops.append({"op": "readd", "node": node})
         elif k == 15:
             can_id = draw(st.integers(0x80, 0xFF))
             if can_id - 0x80 in ids:
@@ -913,6 +921,8 @@ def expand_history(seed, n):
             ops.append({"op": "cb", "node": node})
         elif k == 14:
             ops.append({"op": "clear", "node": node})
+        elif k == 15 and r.below(3) == 0:
+            ops.append({"op": "readd", "node": node})
         elif k == 15:
             can_id = 0x80 + r.below(0x80)
             if can_id - 0x80 in ids:
